@@ -48,6 +48,8 @@ pub enum Kind {
     WrongLiteral,
     SwapArgs,
     LeakVar,
+    ShadowInner,
+    ShadowOuter,
 }
 
 pub const ALL_KINDS: &[Kind] = &[
@@ -57,7 +59,7 @@ pub const ALL_KINDS: &[Kind] = &[
     Kind::AliasUndefined, Kind::JetUndefined, Kind::JetReserved, Kind::PatDupName, Kind::FnDuplicate, Kind::MainDuplicate,
     Kind::MainRemove, Kind::MainParam, Kind::MainResult, Kind::WitnessDup, Kind::WitnessInFn, Kind::MoveItemDown,
     Kind::FoldWrongFn, Kind::LoopWrongFn, Kind::BadArms, Kind::ParamDupName, Kind::DropFinalExpr, Kind::WrongLiteral,
-    Kind::SwapArgs, Kind::LeakVar,
+    Kind::SwapArgs, Kind::LeakVar, Kind::ShadowInner, Kind::ShadowOuter,
 ];
 
 impl Kind {
@@ -75,6 +77,21 @@ struct M<'a> {
     fn_names: Vec<String>,
     wit_names: Vec<String>,
     in_main: bool,
+}
+
+/// `(type, expression of that type)` for a shadowing binding.
+fn shadow_binding(t: &mut Tape) -> (Ty, Expr) {
+    let ty = match t.index(6) {
+        0 => Ty::Bool,
+        1 => Ty::UInt(8),
+        2 => Ty::UInt(16),
+        3 => Ty::unit(),
+        4 => Ty::UInt(32),
+        _ => valgen::gen_ty(t, &TyCfg::SMALL, 1),
+    };
+    let v = valgen::gen_val(t, &ty);
+    let e = crate::render::val_to_expr(&v, &ty, false);
+    (ty, e)
 }
 
 fn other_type(t: &mut Tape, ty: &Ty) -> Ty {
@@ -184,6 +201,40 @@ impl<'a> M<'a> {
             stmts.push(Stmt::Expr(*e));
             return;
         }
+        // shadowing across scopes: bind, in this block, a name that a nested block binds again
+        // (usually with another type); well-typed, the inner binding wins
+        if self.hit(Kind::ShadowOuter) {
+            let mut inner_name = None;
+            for s in stmts.iter() {
+                let e = match s {
+                    Stmt::Let(_, _, e) | Stmt::Expr(e) => e,
+                };
+                walk_expr(e, &mut |x| match x {
+                    Expr::Block(ss, _) => {
+                        for s in ss {
+                            if let Stmt::Let(Pat::Id(n), _, _) = s {
+                                if inner_name.is_none() || self.t.index(3) == 0 {
+                                    inner_name = Some(n.clone());
+                                }
+                            }
+                        }
+                    }
+                    Expr::Match { left, right, .. } => {
+                        for a in [left, right] {
+                            if let Some((n, _)) = &a.binder {
+                                if inner_name.is_none() || self.t.index(3) == 0 {
+                                    inner_name = Some(n.clone());
+                                }
+                            }
+                        }
+                    }
+                    _ => {}
+                });
+            }
+            let (ty, e) = shadow_binding(self.t);
+            stmts.insert(0, Stmt::Let(Pat::Id(inner_name.unwrap_or_else(|| "shadow_unused".to_string())), ty, e));
+            return;
+        }
         // leak: use a variable bound inside a nested block after that block closed
         if self.hit(Kind::LeakVar) {
             let mut inner_name = None;
@@ -287,6 +338,13 @@ impl<'a> M<'a> {
                 }
                 if self.hit(Kind::VarOther) {
                     *n = ["a", "b", "c", "x", "y", "z", "acc", "e", "i", "ctx"][self.t.index(10)].to_string();
+                    return;
+                }
+                // re-bind the variable in a nested block around its use, usually with another type
+                if self.hit(Kind::ShadowInner) {
+                    let name = n.clone();
+                    let (ty, v) = shadow_binding(self.t);
+                    *e = Expr::Block(vec![Stmt::Let(Pat::Id(name.clone()), ty, v)], Some(Box::new(Expr::Var(name))));
                     return;
                 }
             }
